@@ -101,17 +101,9 @@ theorem step_outs {s s' : Sender ℚ} {a : Act ℚ} {outs : List (Tx ℚ)} (h : 
         · refine ⟨resend_mss _ _, fun tx htx => (resend_sz htx rfl).1, fun tx htx hk => ?_⟩
           rw [(resend_sz htx rfl).2] at hk; cases hk
         · exact ⟨rfl, fun tx htx => by simp at htx, fun tx htx => by simp at htx⟩
-    · rw [ackStep_new s x hok hd] at hs'
-      by_cases h0 : s.dupack > 0
-      · simp only [h0, if_true] at hs'
-        obtain ⟨T, S, r, _⟩ := newAck_spec
-          ({ s with cc := CongestionControl.dupack_over s.cc, dupack := 0 } : Sender ℚ) x (TcpCC.weak_dupack_over h.cc) h.keys h.nodup
-        rw [r] at hs'; injection hs' with e1 e2; subst e1 e2
-        exact ⟨rfl, fun tx htx => by simp at htx, fun tx htx => by simp at htx⟩
-      · simp only [h0, if_false] at hs'
-        obtain ⟨T, S, r, _⟩ := newAck_spec s x h.cc.weak h.keys h.nodup
-        rw [r] at hs'; injection hs' with e1 e2; subst e1 e2
-        exact ⟨rfl, fun tx htx => by simp at htx, fun tx htx => by simp at htx⟩
+    · obtain ⟨T, S, r, _⟩ := ackStep_new_spec s x h.cc h.keys h.nodup hok hd
+      rw [r] at hs'; injection hs' with e1 e2; subst e1 e2
+      exact ⟨rfl, fun tx htx => by simp at htx, fun tx htx => by simp at htx⟩
 
 /-- the joint invariant of the closed loop -/
 structure J (l : Loop ℚ) : Prop where
